@@ -135,7 +135,8 @@ def o_roundtrip(case):
                 X, Y = np.meshgrid(x, y)
                 Z = np.full((ny, nx), 2.0)
                 shape = (ny, nx)
-            ts = ("2024-03-%02dT%02d:00" % (1 + t, k)) if case["str_ts"] else t
+            # integer labels: the step index, hours relative to an event (negative, zero in the middle), a countdown, hour of day across midnight
+            ts = ("2024-03-%02dT%02d:00" % (1 + t, k)) if case["str_ts"] else {"relative": t - 2, "countdown": ns - 1 - t, "hours": (22 + t) % 24}.get(case.get("int_kind"), t)
             conc_a, flx_a = adversarial(rng, shape), adversarial(rng, shape)
             if case.get("mixed_dtype"):
                 # the solver returns float32 fields for precision="single" whenever no complex128 phase factor promoted them
@@ -289,6 +290,7 @@ def run(rng, tier, deep):
                 if tier == "quick" and (nt + ns + three_d) % 2 == 1:
                     continue
                 run_oracle(st, o_roundtrip, dict(towers=nt, steps=ns, three_d=three_d, seed=int(rng.integers(1 << 30)),
+                                                 int_kind=[None, "relative", "countdown", "hours"][int(rng.integers(4))],
                                                  str_ts=bool(rng.random() < 0.5), z0_forcing=bool(rng.random() < 0.4),
                                                  mixed_dtype=bool(rng.random() < 0.5), dup_ts=bool(rng.random() < 0.35), np_params=bool(rng.random() < 0.4), f32_prelude=bool(rng.random() < 0.4),
                                                  z_order=[int(v) for v in rng.permutation(3)] if (three_d and rng.random() < 0.6) else None))
@@ -296,6 +298,6 @@ def run(rng, tier, deep):
         # one export of 160 MiB per variable (only in the thorough tier and in the failing-input search: ~20 s, ~1 GB)
         run_oracle(st, o_big_export, dict(ny=1024, nx=1280, towers=4, steps=4, seed=int(rng.integers(1 << 30))))
     return finish(st, "result sets over towers 1..4 x steps 1..4 x 2-D/3-D, values from adversarial float64 bit patterns (+-0, denormals, +-1e308, the default "
-                  "netCDF fill value, negatives), string and integer timestamps (incl. a repeated label), ustar or z0 forcing, per-step met values given as Python floats / ints / numpy scalars / 0-d arrays, result sets mixing float32 and float64 entries, 3-D outputs whose levels are not listed bottom-up; correspondence: which (tower, step) every dataset cell, label "
+                  "netCDF fill value, negatives), string and integer timestamps (incl. a repeated label; integer labels that are the index, relative hours through zero, a countdown, hours across midnight), ustar or z0 forcing, per-step met values given as Python floats / ints / numpy scalars / 0-d arrays, result sets mixing float32 and float64 entries, 3-D outputs whose levels are not listed bottom-up; correspondence: which (tower, step) every dataset cell, label "
                   "and metadata slot holds, vs the Lean assembly model; oracle: bit-identical arrays, ds.sel by name and label, coordinates, metadata, NaN for "
                   "missing ustar", deep, 0)
